@@ -37,6 +37,10 @@ class MyErr(Exception):
     pass
 
 
+class MyBaseErr(BaseException):
+    """not derived from Exception: the dispatcher and the task runner must isolate it all the same"""
+
+
 class ev(Event):
     pass
 
@@ -45,7 +49,7 @@ class ev2(Event):
     pass
 
 
-SHAPES = ['ret', 'none', 'raise', 'gen1', 'gen2', 'gen0', 'gen1_raise', 'gen_raise0', 'falsy0', 'gen_none_then1', 'falsy_empty']
+SHAPES = ['ret', 'none', 'raise', 'gen1', 'gen2', 'gen0', 'gen1_raise', 'gen_raise0', 'falsy0', 'gen_none_then1', 'falsy_empty', 'raise_base', 'gen1_raise_base']
 
 
 def make_harness(n_handlers, shapes, with_channels=True, two_events=True, max_ticks=14):
@@ -71,10 +75,10 @@ def make_harness(n_handlers, shapes, with_channels=True, two_events=True, max_ti
             if shape == 'falsy_empty':
                 log.append(('end', j))
                 return produce(j, '')
-            if shape == 'raise':
+            if shape in ('raise', 'raise_base'):
                 log.append(('produce', j, 'ERR'))
                 log.append(('raised', j))
-                raise MyErr(j)
+                raise (MyErr if shape == 'raise' else MyBaseErr)(j)
 
             def gen():
                 if shape == 'gen0':
@@ -90,10 +94,10 @@ def make_harness(n_handlers, shapes, with_channels=True, two_events=True, max_ti
                 yield produce(j, ('y', j, 0))
                 if shape == 'gen2':
                     yield produce(j, ('y', j, 1))
-                if shape == 'gen1_raise':
+                if shape in ('gen1_raise', 'gen1_raise_base'):
                     log.append(('produce', j, 'ERR'))
                     log.append(('raised', j))
-                    raise MyErr(j)
+                    raise (MyErr if shape == 'gen1_raise' else MyBaseErr)(j)
                 log.append(('end', j))
             return gen()
 
@@ -161,20 +165,29 @@ def make_harness(n_handlers, shapes, with_channels=True, two_events=True, max_ti
             e2.success = True
             value2 = comp.fire(e2)
         ticks = 0
+        escaped = None
         while (len(comp._queue) or comp._tasks) and ticks < max_ticks:
-            comp.tick()
+            try:
+                comp.tick()
+            except BaseException as exc:  # noqa
+                escaped = exc
+                break
             ticks += 1
         w = {}
         flags = 'S%dF%dN%d' % (want_success, want_failure, notify)
         shapes_s = [shape_of.get(j) for j in range(n_handlers)]
-        raisers = [j for j in range(n_handlers) if shape_of.get(j) in ('raise', 'gen1_raise', 'gen_raise0')]
+        raisers = [j for j in range(n_handlers) if shape_of.get(j) in ('raise', 'gen1_raise', 'gen_raise0', 'raise_base', 'gen1_raise_base')]
         gens = [j for j in range(n_handlers) if str(shape_of.get(j)).startswith('gen')]
         w['has_raiser'] = bool(raisers)
         w['has_generator'] = bool(gens)
         w['raiser_is_generator'] = any(str(shape_of.get(j)).startswith('gen') for j in raisers)
+        w['base_exception'] = any(str(shape_of.get(j)).endswith('_base') for j in raisers)
         detail = 'shapes=%s flags=%s log=%s' % (shapes_s, flags, [x[:3] for x in log if x[0] not in ('value_changed',)][:40])
         g.note({'shapes': shapes_s, 'flags': flags, 'value': repr(value.value)[:80]})
 
+        if escaped is not None:
+            g.fail('exception-escaped-the-loop', w, '%r; %s' % (escaped, detail))
+            raise PathEnd()
         if len(comp._queue) or comp._tasks:
             g.fail('never-quiescent', w, detail)
             raise PathEnd()
@@ -192,7 +205,7 @@ def make_harness(n_handlers, shapes, with_channels=True, two_events=True, max_ti
 
         def same(item, p):
             if p[2] == 'ERR':
-                return isinstance(item, tuple) and len(item) == 3 and item[0] is MyErr and getattr(item[1], 'args', None) == (p[1],)
+                return isinstance(item, tuple) and len(item) == 3 and item[0] in (MyErr, MyBaseErr) and getattr(item[1], 'args', None) == (p[1],)
             return type(item) is type(p[2]) and item == p[2]
         got = value.value
         if len(produced) == 0:
